@@ -58,7 +58,10 @@ def scenario_for(seed, index, tier):
             # server does not wait for the answer); the application answers
             # it itself, and only once the encryption response is on its
             # way out: that answer must already be encrypted
-            late_answer = True
+            # ... either queued from an outgoing listener on the encryption
+            # response, or written at once (forced) by another thread that
+            # the (slow) listener has just woken
+            late_answer = rng.choice(['listener-queued', 'thread-forced'])
             login.append(['plugin', 7, 'c18:late', '0102'])
         login.append(['encrypt', enc])
         if compress is not None and login[0][0] != 'compress':
@@ -545,10 +548,27 @@ def execute(scenario, tape):
                 raise _Ignore
 
             def on_enc_response(p):
+                if scenario['late_answer'] == 'thread-forced':
+                    st['enc_response_on_its_way'] = True
+                    w.sleep(rng_listener_us)
+                    return
                 for mid in asked:
                     conn.write_packet(serverbound.login.PluginResponsePacket(
                         message_id=mid, successful=False))
                 del asked[:]
+
+            rng_listener_us = 300 if scenario['rand_seed'] % 2 else 5000
+
+            def answerer():
+                w.wait_until(lambda: st.get('enc_response_on_its_way') or
+                             st['errs'], 30000000)
+                for mid in list(asked):
+                    w.api('forced-answer', conn.write_packet,
+                          serverbound.login.PluginResponsePacket(
+                              message_id=mid, successful=False), force=True)
+                del asked[:]
+            if scenario['late_answer'] == 'thread-forced':
+                w.sim.spawn(answerer, 'user2')
             conn.register_packet_listener(
                 on_request, clientbound.login.PluginRequestPacket, early=True)
             conn.register_packet_listener(
